@@ -37,7 +37,7 @@ CHECKS = {
             "Known finding registered: the v1 verifier accepts a shorter proof of another leaf in unbalanced trees (consensus rule, not repaired). Legacy era quirks (era-2 exact multiples of 64, empty files before the storage-proof fork) are counted as unspecified, not asserted.", "3/C07"),
     "C08": ("E1", "model_checking",
             "exhaustive boundary sweep: every rule x network configuration x every probe height around the bound, through the real ValidateBlock, against an independent rule table",
-            "For every height/time rule of the statement (maturity of every delayed output kind for v1 and v2 spenders, v1 unlock-condition and signature timelocks, v2 above/after/legacy-policy locks compared with the parent height / median of the last 11 timestamps, v1 and v2 revision, proof, expiration and formation windows, v1/v2 transaction version heights) on 12-16 network configurations (maturity delay 0..3 x allow/require placements) the otherwise-valid transaction is rejected at every probed height below the bound and accepted from the bound on (both directions are violations).",
+            "For every height/time rule of the statement (maturity of every delayed output kind for v1 and v2 spenders, v1 unlock-condition timelocks on siacoin inputs, siafund inputs and contract revisions, v1 signature timelocks, v2 above/after/legacy-policy locks on siacoin and siafund inputs compared with the parent height / median of the last 11 timestamps, v1 and v2 revision, proof, expiration and formation windows, v1/v2 transaction version heights) on 12 (thorough 60) network configurations (maturity delay 0..3 (0..5) x allow/require placements) the otherwise-valid transaction is rejected at every probed height below the bound and accepted from the bound on (both directions are violations).",
             "Rule table (Appendix B of DESIGN.md) written from the statement; renewal timing w.r.t. the old contract and v1 proofs at the window-end height are not asserted.", "3/C08"),
     "C09": ("E3", "model_checking",
             "stateless DFS over thread interleavings under a controlled cooperative scheduler (preemption-bounded, adversarial sync.Pool object choice) + sequential purity bundle on every explored transition + separate free-running race-detector pass",
